@@ -1,0 +1,155 @@
+//go:build verif
+// +build verif
+
+// Contracts for the deductive verifier in /verif (govc). Comment-only: this file adds no code.
+//
+// Ghost model (see /verif/speclib/06_stream.spec): an io.Reader is a fixed byte sequence
+// rdbyte(r, 0..rdlen(r)) followed by a sticky error rdfail(r); rdpos(r) is ghost state counting the
+// bytes consumed. Calls to the io.Writer are observed through the call log
+// (ncalls/callarg/callret). pbLen/pbByte/pbErr name what proto.Marshal computes for a message.
+
+package pbcmpl
+
+//@ global fixedSize: fixedSize == 32
+
+// the synthesized package initialiser (variable initialisers)
+//@ func init
+//@   initphase
+//@   assigns fixedSize, endian, ErrInvalidHeaderSize
+//@   establishes globals
+
+// ---- version field ----
+
+//@ func verStr returns (s)
+//@   requires len(buf) < 1<<40
+//@   ensures 0 <= len(s) && len(s) <= len(buf)
+//@   ensures len(s) == 0 || buf[len(s)-1] != 0
+//@   ensures forall k int :: len(s) <= k && k < len(buf) ==> buf[k] == 0
+//@   ensures forall k int :: 0 <= k && k < len(s) ==> s[k] == buf[k]
+//@   assigns nothing
+//@   loop 1
+//@     invariant -1 <= i && i < len(buf)
+//@     invariant forall k int :: i < k && k < len(buf) ==> buf[k] == 0
+
+//@ func newHeader returns (h)
+//@   requires len(ver) <= 16
+//@   ensures h != nil && fresh(h) && h.HeaderSize == 32 && h.BodySize == bodysize
+//@   ensures forall k int :: 0 <= k && k < 16 ==> h.Version[k] == ite(k < len(ver), ver[k], uint8(0))
+//@   assigns nothing
+
+// ---- header codec: the bodies delegate to encoding/binary (reflection): TRUSTED contracts,
+// checked concretely against the real code on every run (bounded, see props.json) ----
+
+//@ func header.Marshal returns (b, err)
+//@   requires h != nil
+//@   trusted encoding/binary.Write (reflection) is outside the subset; little-endian, fields in declaration order
+//@   ensures err == nil && len(b) == 32
+//@   ensures forall k int :: 0 <= k && k < 16 ==> b[k] == h.Version[k]
+//@   ensures le64(b, 16) == h.HeaderSize && le64(b, 24) == h.BodySize
+//@   assigns nothing
+
+//@ func header.Unmarshal returns (err)
+//@   requires h != nil
+//@   trusted encoding/binary.Read (reflection) is outside the subset; little-endian, fields in declaration order
+//@   ensures len(buf) >= 32 ==> err == nil
+//@   ensures len(buf) >= 32 ==> (forall k int :: 0 <= k && k < 16 ==> h.Version[k] == buf[k]) && h.HeaderSize == le64(buf, 16) && h.BodySize == le64(buf, 24)
+//@   assigns h.Version[*], h.HeaderSize, h.BodySize
+
+//@ func header.Reset
+//@   requires h != nil
+//@   ensures h.HeaderSize == 0 && h.BodySize == 0 && (forall k int :: 0 <= k && k < 16 ==> h.Version[k] == 0)
+//@   assigns h.Version[*], h.HeaderSize, h.BodySize
+
+// ---- header accessors ----
+
+//@ func headerInfo.GetVersion returns (s)
+//@   requires hi != nil && hi.header != nil
+//@   ensures 0 <= len(s) && len(s) <= 16
+//@   ensures len(s) == 0 || hi.header.Version[len(s)-1] != 0
+//@   ensures forall k int :: len(s) <= k && k < 16 ==> hi.header.Version[k] == 0
+//@   ensures forall k int :: 0 <= k && k < len(s) ==> s[k] == hi.header.Version[k]
+//@   assigns nothing
+
+//@ func headerInfo.GetHeaderSize returns (r)
+//@   requires hi != nil && hi.header != nil
+//@   ensures r == int64(hi.header.HeaderSize)
+//@   assigns nothing
+
+//@ func headerInfo.GetBodySize returns (r)
+//@   requires hi != nil && hi.header != nil
+//@   ensures r == int64(hi.header.BodySize)
+//@   assigns nothing
+
+// ---- C06/C07: Marshal ----
+
+//@ func marshal returns (hb, data, err)
+//@   requires msg != nil && len(ver) <= 16
+//@   ensures err == pbErr(msg)
+//@   ensures err == nil ==> len(data) == pbLen(msg) && (forall k int :: 0 <= k && k < len(data) ==> data[k] == pbByte(msg, k))
+//@   ensures err == nil ==> len(hb) == 32 && le64(hb, 16) == 32 && le64(hb, 24) == uint64(pbLen(msg))
+//@   ensures err == nil ==> (forall k int :: 0 <= k && k < 16 ==> hb[k] == ite(k < len(ver), ver[k], uint8(0)))
+//@   ensures ncalls() == 0
+//@   assigns nothing
+
+//@ func Marshal returns (n, err)
+//@   requires w != nil && msg != nil
+//@   requires isVersionedMessage(msg) ==> verLen(msg) <= 16
+//@   ensures pbErr(msg) != nil ==> ncalls() == 0 && n == 0 && err == pbErr(msg)
+//@   ensures pbErr(msg) == nil ==> ncalls() >= 1 && callarg(0, 0) == w && len(callarg(0, 1)) == 32
+//@   ensures pbErr(msg) == nil ==> ncalls() >= 1 && le64(callarg(0, 1), 16) == 32 && le64(callarg(0, 1), 24) == uint64(pbLen(msg))
+//@   ensures pbErr(msg) == nil ==> ncalls() >= 1 && (forall k int :: 0 <= k && k < 16 ==> callarg(0, 1)[k] == ite(k < fverLen(msg), fverByte(msg, k), uint8(0)))
+//@   ensures ncalls() >= 1 && callret(0, 1) != nil ==> ncalls() == 1 && n == int64(callret(0, 0)) && err == callret(0, 1)
+//@   ensures ncalls() >= 1 && callret(0, 1) == nil ==> ncalls() == 2 && callret(0, 0) == 32 && callarg(1, 0) == w && len(callarg(1, 1)) == pbLen(msg)
+//@   ensures ncalls() >= 1 && callret(0, 1) == nil ==> ncalls() == 2 && (forall k int :: 0 <= k && k < pbLen(msg) ==> callarg(1, 1)[k] == pbByte(msg, k))
+//@   ensures ncalls() >= 1 && callret(0, 1) == nil ==> ncalls() == 2 && n == 32 + int64(callret(1, 0)) && err == callret(1, 1)
+//@   ensures err == nil ==> n == 32 + int64(pbLen(msg))
+//@   assigns nothing
+
+//@ func HeaderSize returns (r)
+//@   ensures r == 32
+//@   assigns nothing
+
+//@ func Size returns (r)
+//@   ensures r == 32 + pbLen(msg)
+//@   assigns nothing
+
+// ---- C06/C07: ReadHeader / Unmarshal ----
+
+//@ func ReadHeader returns (n, h, err)
+//@   requires r != nil && rdInv(r)
+//@   ensures rdInv(r) && rdpos(r) == old(rdpos(r)) + n
+//@   ensures n == min2(32, rdlen(r) - old(rdpos(r)))
+//@   ensures n < 32 ==> h == nil && err != nil && cause(err) == cause(rdShort(r, n))
+//@   ensures n == 32 ==> err == nil && h != nil && fresh(h) && h.header != nil && fresh(h.header)
+//@   ensures n == 32 ==> (forall k int :: 0 <= k && k < 16 ==> h.header.Version[k] == rdbyte(r, old(rdpos(r)) + k))
+//@   ensures n == 32 ==> h.header.HeaderSize == rd64(r, old(rdpos(r)) + 16) && h.header.BodySize == rd64(r, old(rdpos(r)) + 24)
+//@   ensures ncalls() == 0
+//@   dyntype h *headerInfo
+//@   assigns rdpos(r)
+
+// readBody: exactly min(size, available) bytes are consumed; the buffer never grows more than
+// maxBodyChunk ahead of the data received (make() argument bounded: no panic for any size)
+//@ func readBody returns (b, err)
+//@   requires r != nil && rdInv(r)
+//@   ensures rdInv(r) && 0 <= len(b) && rdpos(r) == old(rdpos(r)) + len(b)
+//@   ensures uint64(rdlen(r) - old(rdpos(r))) >= size ==> uint64(len(b)) == size && err == nil
+//@   ensures uint64(rdlen(r) - old(rdpos(r))) < size ==> len(b) == rdlen(r) - old(rdpos(r)) && err != nil && err == rdShort(r, len(b))
+//@   ensures forall k int :: 0 <= k && k < len(b) ==> b[k] == rdbyte(r, old(rdpos(r)) + k)
+//@   ensures ncalls() == 0
+//@   assigns rdpos(r)
+//@   loop 1
+//@     invariant rdInv(r) && 0 <= len(b) && rdpos(r) == old(rdpos(r)) + len(b) && uint64(len(b)) <= size
+//@     invariant forall k int :: 0 <= k && k < len(b) ==> b[k] == rdbyte(r, old(rdpos(r)) + k)
+//@     invariant cap(b) == 0 || fresh(b)
+
+//@ func Unmarshal returns (n, ver, err)
+//@   requires r != nil && msg != nil && rdInv(r)
+//@   ensures rdInv(r) && rdpos(r) == old(rdpos(r)) + n
+//@   ensures rdlen(r) - old(rdpos(r)) < 32 ==> n == rdlen(r) - old(rdpos(r)) && err != nil && cause(err) == cause(rdShort(r, n)) && len(ver) == 0 && ncalls() == 0
+//@   ensures rdlen(r) - old(rdpos(r)) >= 32 ==> 0 <= len(ver) && len(ver) <= 16 && (len(ver) == 0 || rdbyte(r, old(rdpos(r)) + len(ver) - 1) != 0)
+//@   ensures rdlen(r) - old(rdpos(r)) >= 32 ==> (forall k int :: 0 <= k && k < 16 ==> rdbyte(r, old(rdpos(r)) + k) == ite(k < len(ver), ver[k], uint8(0)))
+//@   ensures rdlen(r) - old(rdpos(r)) >= 32 && rd64(r, old(rdpos(r)) + 16) != 32 ==> n == 32 && err != nil && cause(err) == cause(ErrInvalidHeaderSize) && ncalls() == 0
+//@   ensures rdlen(r) - old(rdpos(r)) >= 32 && rd64(r, old(rdpos(r)) + 16) == 32 && uint64(rdlen(r) - old(rdpos(r)) - 32) < rd64(r, old(rdpos(r)) + 24) ==> n == rdlen(r) - old(rdpos(r)) && err != nil && cause(err) == cause(rdShort(r, n - 32)) && ncalls() == 0
+//@   ensures rdlen(r) - old(rdpos(r)) >= 32 && rd64(r, old(rdpos(r)) + 16) == 32 && uint64(rdlen(r) - old(rdpos(r)) - 32) >= rd64(r, old(rdpos(r)) + 24) ==> n == 32 + int64(rd64(r, old(rdpos(r)) + 24)) && ncalls() == 1 && callarg(0, 1) == msg && cause(err) == cause(callret(0, 0))
+//@   ensures ncalls() == 1 ==> len(callarg(0, 0)) == n - 32 && (forall k int :: 0 <= k && k < len(callarg(0, 0)) ==> callarg(0, 0)[k] == rdbyte(r, old(rdpos(r)) + 32 + k))
+//@   assigns rdpos(r)
